@@ -38,15 +38,22 @@ def gen_ring(rng, d, style):
     else:
         n = rng.randint(3, 6)
         pts = [[g() for _ in range(d)] for _ in range(n)]
-    mode = rng.choice(["open", "closed", "closed_but_zm"] if d > 2 else ["open", "closed"])
+    mode = rng.choice(["open", "closed", "closed_but_zm", "closed_signed_zero"] if d > 2 else ["open", "closed", "closed_signed_zero"])
     if mode == "closed":
         pts.append(list(pts[0]))
+    elif mode == "closed_signed_zero":
+        # closed by VALUE: the last vertex equals the first, a zero coordinate differing in sign only (0.0 == -0.0)
+        c = rng.randrange(d)
+        pts[0][c] = rng.choice([0, shapes.NZERO])
+        q = list(pts[0])
+        q[c] = shapes.NZERO if pts[0][c] == 0 else 0
+        pts.append(q)
     elif mode == "closed_but_zm":
         q = list(pts[0])
         q[rng.randrange(2, d)] = shapes.f2b(99.0)          # same X, Y; another M or Z
         pts.append(q)
     if style == "special":
-        for p in pts[:-1] if mode != "open" else pts:
+        for p in (pts[1:-1] if mode == "closed_signed_zero" else pts[:-1] if mode != "open" else pts):
             if rng.random() < 0.3:
                 p[rng.randrange(d)] = rng.choice([shapes.INF, shapes.NINF, shapes.NZERO, shapes.F_MAX, 1])
         if mode == "closed":
@@ -123,7 +130,8 @@ def run(rep, tier, rng):
             meta.append(("multipatch", 31, patches, style))
         rep.dist(fam + "_" + style)
     rep.cov["rule"] = ("%d constructor calls: Polygon/PolygonM/PolygonZ new and with_rings, Multipatch new and with_parts; rings "
-                       "of 1-6 vertices, open, closed, or closed in X/Y only (last vertex differs in M or Z), both "
+                       "of 1-6 vertices, open, closed, closed by value only (a zero differing in sign), or closed in X/Y only (last "
+                       "vertex differs in M or Z), both "
                        "orientations, both declared roles, all six patch kinds, triangles (3 open / 4 closed vertices), "
                        "degenerate (repeated or collinear vertices), special values (+-inf, -0, f64::MAX); constructed value "
                        "compared with the model; oracle: every stored ring = caller's sequence closed by one copy of its first "
